@@ -475,9 +475,13 @@ class _TraitMaker(object):
                 trait.post_setattr = post_setattr
                 trait.is_mapped = handler.is_mapped
 
-        comparison_mode = metadata.pop("comparison_mode", None)
-        if comparison_mode is not None:
-            trait.comparison_mode = comparison_mode
+        if "comparison_mode" in metadata:
+            # Work on a copy: this method may be called again (Either), and
+            # must then produce an identically configured CTrait.
+            metadata = metadata.copy()
+            comparison_mode = metadata.pop("comparison_mode")
+            if comparison_mode is not None:
+                trait.comparison_mode = comparison_mode
 
         if len(metadata) > 0:
             if trait.__dict__ is None:
